@@ -27,3 +27,4 @@ def check(ctx):
     collector.rule_registry_in_place(ctx, c, "R3")
     spsc.rule_try_recv(ctx, facts, "R3")
     collector.rule_insert_tolerates_late_start(ctx, c, "R4")
+    spsc.rule_parked_visible_to_collector(ctx, facts, "R5")
